@@ -6,9 +6,13 @@ import "verifsim/engine"
 // All returns the scenario registry.
 func All() map[string]func() *engine.Scenario {
 	return map[string]func() *engine.Scenario{
+		"C01": C01,
+		"C02": C02,
 		"C04": C04,
 		"C05": C05,
+		"C06": C06,
 		"C10": C10,
 		"C12": C12,
+		"C14": C14,
 	}
 }
